@@ -18,6 +18,11 @@ Proof.
   replace (0 <? rel') with true by (symmetry; apply Z.ltb_lt; lia). reflexivity.
 Qed.
 
+(* ------------------------------------------------------------------------------------------------ stateless objects *)
+Theorem stateless_resumable {C I Ou : Type} (f : C -> Z -> I -> Ou) :
+  resumable (stateless_machine f) (fun _ => True) (fun _ _ => True) (fun _ _ _ => True) eq eq eq.
+Proof. constructor; cbn [m_init m_step m_save m_after_save m_load stateless_machine fst snd]; auto. Qed.
+
 (* ------------------------------------------------------------------------------------------------ histogram *)
 Section Histogram.
   Context {T : Type} (O : NumOps T).
@@ -210,7 +215,7 @@ End ListOf.
 (* ------------------------------------------------------------------------------------------------ extended Lagrangian *)
 Section ExtLag.
   Context {T : Type} (O : NumOps T).
-  Context {BC BS BO BV : Type} (B : machine BC BS (list T) BO BV) (force_of : BO -> T).
+  Context {BC BS BI BO BV : Type} (B : machine BC BS BI BO BV) (force_of : BO -> T) (bin : xcfg (T:=T) -> xstate (T:=T) -> BI).
   Variables (OkB : BC -> Prop) (InvB : BC -> BS -> Prop) (EqvB : BC -> BS -> BS -> Prop)
             (OE0B OEB : BO -> BO -> Prop) (SEB : BV -> BV -> Prop).
   Hypothesis force0 : forall o o', OE0B o o' -> force_of o = force_of o'.
@@ -237,7 +242,7 @@ Section ExtLag.
 
   Theorem extlag_resumable :
     resumable B OkB InvB EqvB OE0B OEB SEB ->
-    resumable (extlag_machine O B force_of)
+    resumable (extlag_machine O B force_of bin)
       (fun c => OkB (snd c))
       (fun c s => InvB (snd c) (snd s))
       (fun c s s' => fst s = fst s' /\ EqvB (snd c) (snd s) (snd s'))
@@ -250,10 +255,10 @@ Section ExtLag.
     - intros c s it rel i Hc Hi Hr. apply (r_inv_step HB); auto.
     - intros c s it rel i Hc Hi Hr. cbn zeta. cbn [fst snd].
       set (p := x_pre O (fst c) (fst s) rel (xi_x i)).
-      set (rb := m_step B (snd c) (snd s) it rel [xs_xr p]).
+      set (rb := m_step B (snd c) (snd s) it rel (bin (fst c) p)).
       pose proof (x_reexec (fst c) (fst s) rel (xi_x i) (force_of (snd rb)) (xi_rnd i)) as Hx.
       cbn zeta in Hx. fold p in Hx. rewrite Hx. clear Hx.
-      destruct (r_reexec HB (snd c) (snd s) it rel [xs_xr p] Hc Hi Hr) as [E Q]. cbn zeta in E, Q. fold rb in E, Q.
+      destruct (r_reexec HB (snd c) (snd s) it rel (bin (fst c) p) Hc Hi Hr) as [E Q]. cbn zeta in E, Q. fold rb in E, Q.
       rewrite <- (force0 _ _ Q). unfold xl_out_eq. cbn [fst snd]. auto.
     - intros c s s' it rel rel' i Hc [E1 E2] Hr Hr'. rewrite <- E1.
       assert (Hp : x_pre O (fst c) (fst s) rel (xi_x i) = x_pre O (fst c) (fst s) rel' (xi_x i)).
@@ -261,7 +266,7 @@ Section ExtLag.
         replace (rel' =? 0) with false by (symmetry; apply Z.eqb_neq; lia). reflexivity. }
       rewrite <- Hp.
       set (p := x_pre O (fst c) (fst s) rel (xi_x i)).
-      destruct (r_congr HB (snd c) _ _ it rel rel' [xs_xr p] Hc E2 Hr Hr') as [E Q].
+      destruct (r_congr HB (snd c) _ _ it rel rel' (bin (fst c) p) Hc E2 Hr Hr') as [E Q].
       rewrite <- (force1 _ _ Q). unfold xl_out_eq. cbn [fst snd]. auto.
     - intros c s s' Hc [E1 E2]. rewrite E1. split; [reflexivity | apply (rs_save HB); auto].
     - intros c s Hc Hi. split; [|apply (rs_save_load HB); auto].
